@@ -224,3 +224,57 @@ var SupportTypes = map[string]string{
 	"@base":  "{\n  \"bk\": 1\n}",
 	"@base2": "{\n  \"bk2\": 2\n}",
 }
+
+// TLC prints only ASCII: control characters inside decoded values travel as placeholders.
+var placeholders = strings.NewReplacer("<FF>", "\f", "<SOH>", "\x01")
+
+// Resolve replaces the placeholders in every decoded value of the project and of its expected AST.
+func (p *Project) Resolve() {
+	var node func(n *Node)
+	var ann func(a *Ann)
+	var rv func(v *RuleVal)
+	rv = func(v *RuleVal) {
+		v.T = placeholders.Replace(v.T)
+		for i := range v.Items {
+			rv(&v.Items[i])
+		}
+		for i := range v.Props {
+			rv(&v.Props[i].V)
+		}
+	}
+	ann = func(a *Ann) {
+		for i := range a.Rules {
+			rv(&a.Rules[i].V)
+		}
+	}
+	node = func(n *Node) {
+		n.Val = placeholders.Replace(n.Val)
+		for i := range n.Kids {
+			node(&n.Kids[i].Node)
+			ann(&n.Kids[i].Ann)
+		}
+	}
+	node(&p.Project)
+	ann(&p.RootAnn)
+	var ast func(a *Ast)
+	var arv func(v *AstRuleVal)
+	arv = func(v *AstRuleVal) {
+		v.Val = placeholders.Replace(v.Val)
+		for i := range v.Items {
+			arv(&v.Items[i])
+		}
+		for i := range v.Props {
+			arv(&v.Props[i].V)
+		}
+	}
+	ast = func(a *Ast) {
+		a.Val = placeholders.Replace(a.Val)
+		for i := range a.Rules {
+			arv(&a.Rules[i].V)
+		}
+		for i := range a.Kids {
+			ast(&a.Kids[i])
+		}
+	}
+	ast(&p.Ast)
+}
